@@ -294,12 +294,14 @@ class Emitter:
         self.needed_globals = OrderedDict((g, True) for g in force_globals)
         self.needed_records = OrderedDict()
         self.loops = []           # (cname, ordinal, header text)
+        self.dropped_fields = []
         self.rule_hits = {}
         self.macro_names = set(self.p.enum_const) | set(self.p.globals)   # a local shadowing a global (possibly a #define'd constant) is renamed
         self.cur_fn = None
         self.local_ren = {}
         self.tmp_no = 0
         self.const_placeholders = OrderedDict()
+        self._field_ok = {}
 
     def hit(self, rule):
         self.rule_hits[rule] = self.rule_hits.get(rule, 0) + 1
@@ -727,6 +729,9 @@ class Emitter:
                         return 'verif_str_push(%s, %s)' % (self.addr_of(self.e(n['inner'][1])), self.e(n['inner'][2]))
                 raise Unsupported('operator call %s on %s in %s' % (r['name'], a0t, self.cur_fn))
             info = self.p.funcs[key]
+            if r['name'] == 'operator=' and (info['node'].get('isImplicit') or info['node'].get('explicitlyDefaulted')):
+                self.hit('implicit/defaulted copy or move assignment of a record -> struct assignment')
+                return '(%s = %s)' % (self.e(n['inner'][1]), self.e(n['inner'][2]))
             if info['rec'] is not None and info['node']['kind'] == 'CXXMethodDecl':
                 # member operator: first argument is the object
                 obj = self.addr_of(self.e(n['inner'][1]))
@@ -759,14 +764,42 @@ class Emitter:
 
     def library_member_call(self, me, n):
         bt = qt(me['inner'][0]['type'])
+        if me.get('name') == 'count' and 'std::chrono::duration' in bt:
+            self.hit('std::chrono duration .count() -> verif_elapsed_ms() (non-negative nondeterministic clock reading)')
+            self.bindings_used['elapsed'] = ('elapsed', '')
+            return 'verif_elapsed_ms()'
+        if me.get('name') == 'data' and re.match(r'(const )?std::array<', bt) and len(n['inner']) == 1:
+            self.hit('std::array::data -> address of the first element')
+            return '(&%s[0])' % self.e(me['inner'][0])
         if ('basic_string<char>' in bt or bt.endswith('std::string')) and me.get('name') in ('size', 'length') and len(n['inner']) == 1:
             self.hit('std::string::size -> .n')
             bs = self.e(me['inner'][0])
             return '(%s)->n' % self.addr_of(bs)
         raise Unsupported('member call to library method %s in %s' % (me.get('name'), self.cur_fn))
 
+    def field_dropped(self, n):
+        """member of a record whose type is outside the subset (dropped from the emitted struct)"""
+        t = n.get('type')
+        if t is None:
+            return False
+        if n.get('name') in (self.hooks.get('drop_fields') or ()):
+            return True
+        key = qt(t)
+        if key in self._field_ok:
+            return not self._field_ok[key]
+        saved = (dict(self.needed_records), dict(self.bindings_used), dict(self.rule_hits))
+        try:
+            ok = 'VECVIEW' not in self.decl(t, 'x')
+        except Unsupported:
+            ok = False
+            self.needed_records, self.bindings_used, self.rule_hits = OrderedDict(saved[0]), OrderedDict(saved[1]), saved[2]
+        self._field_ok[key] = ok
+        return not ok
+
     def e_MemberExpr(self, n):
         base = n['inner'][0]
+        if self.field_dropped(n) and 'referencedMemberDecl' in n and n['referencedMemberDecl'] not in self.p.func_by_id:
+            raise Unsupported('member %s has a type outside the subset (field dropped) in %s' % (n.get('name'), self.cur_fn))
         bs = self.e(base)
         name = n['name']
         if n.get('isArrow'):
@@ -901,6 +934,16 @@ class Emitter:
                     continue
                 if v['kind'] != 'VarDecl':
                     raise Unsupported('local declaration of kind ' + v['kind'])
+                if self.is_chrono(v['type']):
+                    self.hit('local std::chrono object dropped (clock readings are bound to verif_elapsed_ms)')
+                    continue
+                if not self.refs_decl(self.cur_body, v['id']):
+                    try:
+                        if 'VECVIEW' in self.decl(v['type'], 'x'):
+                            raise Unsupported('vector local')
+                    except Unsupported:
+                        self.hit('unused local of a type outside the subset dropped')
+                        continue
                 out += p + self.local_var(v) + ';\n'
             return out
         if k == 'ReturnStmt':
@@ -970,7 +1013,41 @@ class Emitter:
             r = hook(self, n, p)
             if r is not None:
                 return r
+        d = self.droppable(n)
+        if d:
+            self.hit(d)
+            return p + '; /* %s */\n' % d
         return p + self.e(n, ctx='discard') + ';\n'
+
+    CHRONO = ('std::chrono::', 'TimePoint', 'time_point')
+
+    def is_chrono(self, t):
+        q = t.get('qualType', '') + ' ' + t.get('desugaredQualType', '')
+        return any(c in q for c in self.CHRONO)
+
+    def droppable(self, n):
+        """statements that only update state of a type outside the subset which no verified function reads back"""
+        x = n
+        while x.get('kind') in ('ExprWithCleanups', 'ParenExpr'):
+            x = x['inner'][0]
+        if x.get('kind') == 'CXXOperatorCallExpr':
+            c = self.callee_decl(x)
+            if c.get('kind') == 'DeclRefExpr' and c['referencedDecl'].get('name') == 'operator=' and self.is_chrono(x['inner'][1]['type']):
+                return 'assignment to a std::chrono object dropped (clock readings are bound to verif_elapsed_ms)'
+        if x.get('kind') == 'BinaryOperator' and x.get('opcode') == '=':
+            lhs = x['inner'][0]
+            while lhs.get('kind') == 'ParenExpr':
+                lhs = lhs['inner'][0]
+            if lhs.get('kind') == 'MemberExpr' and self.field_dropped(lhs) and not self._has_effect_call(x['inner'][1]):
+                return 'write to a dropped record field (%s) dropped' % lhs.get('name')
+        return None
+
+    def refs_decl(self, n, did):
+        if not isinstance(n, dict):
+            return False
+        if n.get('kind') == 'DeclRefExpr' and n.get('referencedDecl', {}).get('id') == did:
+            return True
+        return any(self.refs_decl(c, did) for c in n.get('inner', []))
 
     def s_block(self, n, ind):
         if n['kind'] == 'CompoundStmt':
@@ -1100,6 +1177,7 @@ class Emitter:
         o = info['def']
         body = func_body(o)
         self.cur_fn = info['cname']
+        self.cur_body = body
         self.loop_no = 0
         self.local_ids = set()
         self.local_ren = {}
@@ -1188,6 +1266,18 @@ class Emitter:
             return True
         return any(self._has_call(c) for c in n.get('inner', []))
 
+    def _has_effect_call(self, n):
+        if not isinstance(n, dict):
+            return False
+        k = n.get('kind')
+        if k in ('CallExpr', 'CXXMemberCallExpr', 'CXXConstructExpr'):
+            return True
+        if k == 'CXXOperatorCallExpr':
+            c = self.callee_decl(n)
+            if not (c.get('kind') == 'DeclRefExpr' and c['referencedDecl'].get('name') == 'operator[]'):
+                return True
+        return any(self._has_effect_call(c) for c in n.get('inner', []))
+
     def _scalar(self, q):
         q = q.replace('const ', '').strip()
         try:
@@ -1264,7 +1354,16 @@ class Emitter:
             for c in r.get('inner', []):
                 if c.get('kind') != 'FieldDecl':
                     continue
-                fd = self.decl(c['type'], c['name'])
+                try:
+                    if c['name'] in (self.hooks.get('drop_fields') or ()):
+                        raise Unsupported('dropped on request')
+                    fd = self.decl(c['type'], c['name'])
+                    if 'VECVIEW' in fd:
+                        raise Unsupported('vector member')
+                except Unsupported as ex:
+                    self.hit('record field of a type outside the subset dropped (any access to it stops the extraction)')
+                    self.dropped_fields.append('%s::%s' % (name, c['name']))
+                    continue
                 fields.append(fd)
                 if '*' not in fd:
                     for nr in re.findall(r'struct (\w+)', fd):
@@ -1306,6 +1405,8 @@ class Emitter:
                 out.append('struct verif_string { char s[16]; size_t n; };\n'
                            'static inline const char *verif_str_at(const struct verif_string *x, size_t i) { __CPROVER_assert(i <= x->n && i < 16, "std::string index within size"); return &x->s[i]; }\n'
                            'static inline void verif_str_push(struct verif_string *x, char c) { __CPROVER_assert(x->n < 15, "verif_string capacity"); x->s[x->n] = c; x->n++; x->s[x->n] = 0; }\n')
+            elif nm == 'elapsed':
+                out.append('long nondet_long(void);\nstatic inline int64_t verif_elapsed_ms(void) { int64_t t = nondet_long(); __CPROVER_assume(t >= 0 && t < (1LL << 40)); return t; }\n')
             elif nm == 'find':
                 out.append('static inline const %s *verif_find_%s(const %s *b, const %s *e, %s v) { const %s *p = b; while (p != e && *p != v)\n'
                            '  __CPROVER_assigns(p) __CPROVER_loop_invariant(__CPROVER_same_object(p, b) && __CPROVER_POINTER_OFFSET(b) <= __CPROVER_POINTER_OFFSET(p) && __CPROVER_POINTER_OFFSET(p) <= __CPROVER_POINTER_OFFSET(e))\n'
